@@ -751,6 +751,17 @@ func matchParen(s string, open int) int {
 	return -1
 }
 
+// closeFrames: a contract without a `writes` clause means `writes nothing` (callers assume that no
+// slice cell changes, so the body has to be checked against it; leaving the body unchecked was a
+// soundness hole reported by a contract-writing agent).
+func (cs *ContractSet) closeFrames() {
+	for _, c := range cs.Funcs {
+		if !c.Pure {
+			c.HasWrites = true
+		}
+	}
+}
+
 func NewContractSet() *ContractSet {
 	return &ContractSet{Funcs: map[string]*Contract{}, Specs: map[string]*SpecFunc{}, Invs: map[string]*TypeInv{}}
 }
